@@ -447,7 +447,7 @@ func ruleEnumLabelUniq(c *Ctx, r *Report) {
 //   - the key message of a list is a sibling of the messages of the list's package, so its name
 //     is made unique against the names of the directories of that package.
 func ruleProtoScopeNames(c *Ctx, r *Report) {
-	r.Rule("R-PROTO-SCOPE", "names protogen derives with a fixed transformation are kept unique in the protobuf scope they land in: the value prefix of each enum embedded in a message is a MakeNameUnique result over the message's enums, set before the (single) render and read by the message template; the name of a list's key message is a MakeNameUnique result over the names of the IR directories of its package; the fields of a oneof are renamed by MakeNameUnique over the message's field names before they are attached", 6)
+	r.Rule("R-PROTO-SCOPE", "names protogen derives with a fixed transformation are kept unique in the protobuf scope they land in: the value prefix of each enum embedded in a message is a MakeNameUnique result over the message's enums, set before the (single) render and read by the message template; the name of a list's key message is a MakeNameUnique result over the names of the IR directories of its package; the fields of a oneof are renamed by MakeNameUnique over the message's field names before they are attached; the message for a leaf-list of unions is named through a uniquifier", 7)
 	// (1) every store to protoMsgEnum.ValuePrefix is a uniquifier result with memory across the loop.
 	var setter *FuncInfo
 	n := 0
@@ -632,6 +632,44 @@ func ruleProtoScopeNames(c *Ctx, r *Report) {
 				f.Name+" attaches the fields of a oneof to a message without making their names (<leaf>_<type>) unique among the message's fields: a union leaf foo-bar with a string member next to a leaf foo-bar-string yields two fields named foo_bar_string")
 			return true
 		})
+	}
+	// (7) the message generated for a leaf-list of unions (<Leaf>Union) is a sibling of the
+	// messages of the enclosing scope as well: its name needs the same treatment as the key message.
+	if f := c.MustFunc(r, "protogen", "unionFieldToOneOf"); f != nil {
+		info := f.Info()
+		var nameExpr ast.Expr
+		ast.Inspect(f.Decl.Body, func(x ast.Node) bool {
+			cl, ok := x.(*ast.CompositeLit)
+			if !ok || nameExpr != nil {
+				return nameExpr == nil
+			}
+			tv, ok := info.Types[cl]
+			if !ok || tv.Type == nil || !strings.HasSuffix(tv.Type.String(), "protogen.protoMsg") {
+				return true
+			}
+			for _, el := range cl.Elts {
+				if kv, ok := el.(*ast.KeyValueExpr); ok {
+					if id, ok := kv.Key.(*ast.Ident); ok && id.Name == "Name" {
+						nameExpr = kv.Value
+					}
+				}
+			}
+			return nameExpr == nil
+		})
+		good := false
+		if nameExpr != nil {
+			exprs := []ast.Expr{nameExpr}
+			if id, ok := ast.Unparen(nameExpr).(*ast.Ident); ok {
+				exprs = allDefs(f, info.ObjectOf(id))
+			}
+			for _, e := range exprs {
+				if call, ok := ast.Unparen(e).(*ast.CallExpr); ok && FullName(Callee(info, call)) == P("genutil")+".MakeNameUnique" {
+					good = true
+				}
+			}
+		}
+		r.Check(good, "protogen.unionFieldToOneOf:repeated-union-message-name", c.Pos(f.Decl.Pos()), "name made unique",
+			"the message generated for a leaf-list of unions is named <Leaf>Union (and a union's inline enumeration <Leaf>Enum) without a test against the other type names of the scope it is emitted in")
 	}
 	// (4) key message name.
 	if f := c.MustFunc(r, "protogen", "genListKeyProto"); f != nil {
